@@ -90,6 +90,10 @@ func NewServerDnsListener(topDomain string, comm ServerCommunicator) *ServerDnsL
 					log.Infof("Removing stale user connection for user %d (%s)", u.UserId, u.remoteAddress)
 					srv.connections[u.UserId] = nil
 					srv.oldConnections[u.UserId] = u
+					// The session is over: end the streams of whoever still serves it
+					u.closed = true
+					u.in.Close()
+					u.out.Close()
 				}
 			}
 
@@ -165,6 +169,10 @@ func (s *ServerDnsListener) closeConnection(u *userConnection) error {
 	s.connections[u.UserId] = nil
 	s.oldConnections[u.UserId] = u
 	u.closed = true
+
+	// Release whoever is still blocked in Read or Write on this connection
+	u.in.Close()
+	u.out.Close()
 
 	return nil
 }
